@@ -256,6 +256,7 @@ def check(prop_id, tier, seed):
                                "expected": v.get("expected"), "bounded": r["kind"] == "bounded"})
 
     # ---- replay of counter-models against the real code
+    exp_bases = set(_re.sub(r"#\d+$", "", n) for n in exp_names)
     for o in sat_obs:
         payload = {"obligation": o["name"], "unit": o["unit"], "model": o.get("model"),
                    "solver": o.get("backend"), "status": o["status"]}
@@ -270,7 +271,10 @@ def check(prop_id, tier, seed):
         # shape obligations compare source text of grammar productions: a failure there is advisory
         # (a harmless refactoring changes the text) and counts only if the native recogniser confirms it
         advisory = o["name"].startswith("lemma:grammar.shapes/")
-        was_proved = o["name"] in exp_names and not advisory
+        # path ordinals (#k) are renumbered when the code changes: a clause counts as proved on the reference tree when
+        # all its instances were discharged there (the baseline lists only discharged obligations and is recorded from a
+        # run without undecided ones)
+        was_proved = (o["name"] in exp_names or _re.sub(r"#\d+$", "", o["name"]) in exp_bases) and not advisory
         if confirmed is not None:
             violations.append({"source": "obligation " + o["name"], "key": confirmed.get("key"),
                                "what": confirmed.get("what"), "input": confirmed.get("input"),
